@@ -345,6 +345,8 @@ def mk_rop(letter, rng, nt, bo, atom):
                                             item_spec(rng, nt, bo, atom, 1)])
     if letter in ('t-1', 't0', 't1', 't2'):
         return dict(op='truncate', index=int(letter[1:]))
+    if letter == 't-big':
+        return dict(op='truncate', index=-100)
     if letter == 'tbig':
         return dict(op='truncate', index=100)
     if letter == 'tni':
@@ -367,8 +369,8 @@ def mk_rop(letter, rng, nt, bo, atom):
 
 
 RALPHABET = ['a0', 'a1', 'a3', 'al', 'aod', 'asw', 'abig', 'abad', 'it0', 'it2', 'itbad', 't-1', 't0', 't1', 't2',
-             'tbig', 'tni', 'ro', 'mr', 'mrw', 'ms', 'mc']
-RCOMPACT = ['a0', 'a1', 'a3', 'aod', 'asw', 'it2', 't-1', 't0', 't1', 'ro', 'mr', 'abad']
+             'tbig', 't-big', 'tni', 'ro', 'mr', 'mrw', 'ms', 'mc']
+RCOMPACT = ['a0', 'a1', 'a3', 'aod', 'asw', 'it2', 't-1', 't-big', 't0', 't1', 'ro', 'mr', 'abad']
 
 
 def rhistory_case(rng, nt, bo, atom, indextype, sublens, letters, mode='r+', metadata=None):
